@@ -1,0 +1,35 @@
+//go:build verif
+
+package fzf
+
+// Verification hook (build tag verif): one item matched against a sequence of patterns, the way an
+// interactive session does after change-nth (the item keeps its memoised --nth tokens). No logic.
+
+import (
+	"github.com/junegunn/fzf/src/algo"
+	"github.com/junegunn/fzf/src/util"
+)
+
+type VerifNthStep struct {
+	Query string
+	Nth   []Range
+	Major int
+	Minor int
+}
+
+func VerifNthSequence(line string, delimiter Delimiter, fuzzy bool, extended bool, caseMode Case, forward bool, steps []VerifNthStep) ([]bool, [][][2]int) {
+	item := Item{text: util.ToChars([]byte(line))}
+	slab := util.MakeSlab(slab16Size, slab32Size)
+	matched := make([]bool, len(steps))
+	offs := make([][][2]int, len(steps))
+	for i, st := range steps {
+		p := BuildPattern(NewChunkCache(), make(map[string]*Pattern), fuzzy, algo.FuzzyMatchV2, extended, caseMode,
+			false, forward, true, false, st.Nth, delimiter, revision{st.Major, st.Minor}, []rune(st.Query), nil)
+		res, offsets, _ := p.MatchItem(&item, true, slab)
+		matched[i] = res != nil
+		for _, o := range offsets {
+			offs[i] = append(offs[i], [2]int{int(o[0]), int(o[1])})
+		}
+	}
+	return matched, offs
+}
